@@ -63,6 +63,7 @@ func c16(c *core.Check) {
 	c16Page(c)
 	c16FixedBoxes(c)
 	c16WrapperProperties(c)
+	c16ZIndexPositioned(c)
 
 	dsc := p.Method("html/document", "drawContext", "drawStackingContext")
 	if dsc == nil {
@@ -701,4 +702,58 @@ func c16WrapperProperties(c *core.Check) {
 		return
 	}
 	r.Cond(has["PPosition"] == has["PZIndex"], "css/properties.TableWrapperBoxProperties | position and z-index together", "css/properties/datas.go", "both moved to the wrapper", fmt.Sprintf("position moved: %v, z-index moved: %v — `<table style=\"position:relative;z-index:-1\">` paints over the in-flow blocks", has["PPosition"], has["PZIndex"]))
+}
+
+// c16ZIndexPositioned: z-index applies to positioned boxes only.  A box that forms a stacking context for another
+// reason (opacity, transform, overflow) is painted at level 0 whatever its z-index says.
+func c16ZIndexPositioned(c *core.Check) {
+	p := c.Prog
+	r := c.Rule("R9", "z-index applies to positioned boxes only: in NewStackingContext the integer z-index of the style reaches the context's level only on paths where the position was compared with \"static\" and found different (a non-positioned box with opacity < 1 and z-index: 2 is painted at level 0, below a positioned box with z-index: 1)", 1)
+	fn := p.Fn("html/document", "NewStackingContext")
+	if fn == nil {
+		r.Anchor("html/document.NewStackingContext")
+		return
+	}
+	var atoms []ssa.Value
+	pol := map[ssa.Value]bool{}
+	for _, a := range core.CondAtoms(fn) {
+		bo, ok := a.(*ssa.BinOp)
+		if !ok || (bo.Op != token.EQL && bo.Op != token.NEQ) {
+			continue
+		}
+		if s, isS := core.ConstStr(bo.Y); isS && s == "static" {
+			atoms = append(atoms, a)
+			pol[a] = bo.Op == token.NEQ
+		}
+	}
+	n := 0
+	core.Instrs(fn, func(in ssa.Instruction) {
+		st, ok := in.(*ssa.Store)
+		if !ok {
+			return
+		}
+		fa, ok := st.Addr.(*ssa.FieldAddr)
+		if !ok || core.FieldName(fa) != "zIndex" {
+			return
+		}
+		if _, isK := st.Val.(*ssa.Const); isK {
+			return // level 0
+		}
+		n++
+		ok2 := false
+		if len(atoms) > 0 {
+			ok2, _ = core.GuardedBy(fn, st.Block(), atoms, func(m map[ssa.Value]bool) bool {
+				for a, v := range m {
+					if v == pol[a] {
+						return true
+					}
+				}
+				return false
+			})
+		}
+		r.Cond(ok2, "html/document.NewStackingContext | zIndex = the style's integer", p.Pos(st.Pos()), "only where the position is not static", "the z-index of the style becomes the level of the context without a test of the position: a non-positioned box that forms a context through opacity, transform or overflow is ordered by a z-index that does not apply to it")
+	})
+	if n == 0 {
+		r.Anchor("NewStackingContext: self.zIndex = zIndex.Int")
+	}
 }
